@@ -34,6 +34,8 @@ type Feat struct {
 	MalRate        float64 // probability of inserting a call from the malformed grammar before an op
 	MalTagsOnly    bool
 	VisAfterInvoke float64
+	PErrFirst      float64
+	PReenter       float64
 	DecoIntroduce  bool // allow decorators for keys nobody provides (DESIGN §9 R3)
 }
 
@@ -292,6 +294,8 @@ func (g *genCtx) genCtor(s int) *Func {
 		}
 	}
 	f.HasErr = g.r.P(0.7)
+	f.ErrFirst = f.HasErr && g.r.P(ft.PErrFirst)
+	f.Reenter = g.r.P(ft.PReenter)
 	maxT := minT
 	wild := g.r.P(ft.Wild)
 	if wild {
@@ -393,6 +397,7 @@ func (g *genCtx) genDecorator(s int) *Func {
 	f.Params = g.encodeParams(pkeys, RoleDec)
 	g.ft.Soft, g.ft.Optional, g.ft.NamedSlice = saveSoft, saveOpt, saveNS
 	f.HasErr = g.r.P(0.7)
+	f.ErrFirst = f.HasErr && g.r.P(g.ft.PErrFirst)
 	f.Callback = g.ft.Callbacks && g.r.P(0.5)
 	return f
 }
@@ -560,7 +565,7 @@ func (g *genCtx) opDecorate(s int) {
 
 func (g *genCtx) opInvoke(s int) {
 	defer func() {
-		if g.ft.Catalog && g.ft.VisAfterInvoke > 0 && g.r.P(g.ft.VisAfterInvoke) && len(g.h.Ops) > 0 && g.h.Ops[len(g.h.Ops)-1].Kind == OpInvoke {
+		if g.ft.VisAfterInvoke > 0 && g.r.P(g.ft.VisAfterInvoke) && len(g.h.Ops) > 0 && g.h.Ops[len(g.h.Ops)-1].Kind == OpInvoke {
 			g.addOp(Op{Kind: OpVisualize, ErrFrom: len(g.h.Ops)})
 		}
 	}()
@@ -663,6 +668,7 @@ func BaseFeat(r *Rng, thorough bool) Feat {
 	ft.GroupDecs = r.P(0.5)
 	ft.Variadic = r.P(0.3)
 	ft.Info = r.P(0.3)
+	ft.PErrFirst = []float64{0, 0.15, 0.3}[r.Intn(3)]
 	return ft
 }
 
